@@ -398,6 +398,10 @@ def expected(spec, with_links=True):
             if rep and "atomname" in rep and rep["atomname"] is None:
                 model.removed.add(m["atoms"][at["key"]])
             elif rep:
+                if rep.get("atomname"):
+                    # renamed: later selections by name (modifications) see the new name
+                    model.atoms[m["atoms"][at["key"]] - 1]["name"] = rep["atomname"]
+                    model.renamed = getattr(model, "renamed", 0) + 1
                 model.charge_override.setdefault(m["atoms"][at["key"]], []).append((m["link"], rep))
         for it in lnk["inter"]:
             atoms = tuple(m["atoms"][key] for key in it["atoms"])
